@@ -23,13 +23,21 @@ def workload(chk):
         items.append((os.path.basename(e[0]), corpus.cmdline(e)))
     for i in range(chk.pick(40, 200)):
         rng = chk.rng("gen", i)
-        k = rng.choice(["c", "cxx", "types", "static"])
+        k = rng.choice(["c", "cxx", "types", "static", "abi"])
         if k == "c":
             p = write(os.path.join(d, "g%d.h" % i), gen_funcs.gen_c(rng, rng.randint(10, 40))[0])
             fl = [p] + rng.choice([[], ["--merge-extern-blocks"], ["--sort-semantically"], ["--with-derive-hash", "--with-derive-eq"]])
         elif k == "cxx":
             p = write(os.path.join(d, "g%d.hpp" % i), gen_funcs.gen_cxx(rng, rng.randint(8, 20)))
             fl = [p, "--enable-cxx-namespaces"]
+        elif k == "abi":
+            # several kinds of extern block in one module (calling conventions, partial --override-abi, block attributes) under the merging /
+            # sorting passes: whatever groups them must not depend on hash order
+            from .. import hfuncs
+            p = write(os.path.join(d, "g%d.h" % i), hfuncs.header(hfuncs.generate(rng)))
+            fl = [p, "--merge-extern-blocks"] + rng.choice([[], ["--override-abi", "fn[0-9]*[13579]=C-unwind"], ["--sort-semantically"],
+                                                             ["--override-abi", "fn[0-9]*[02468]=C-unwind", "--extern-fn-block-attrs", "#[allow(dead_code)]"],
+                                                             ["--wasm-import-module-name", "env"]])
         elif k == "types":
             p = write(os.path.join(d, "g%d.h" % i), G.Gen(rng, dict(bf_in_union=False)).generate().header())
             fl = [p] + rng.choice([[], ["--impl-debug", "--with-derive-default"], ["--default-enum-style", "rust"]])
